@@ -109,6 +109,8 @@ func runC19(p *core.Prog, r *core.Report) {
 	c19R4(p, r)
 	c19R5(p, r)
 	c19R6(p, r)
+	// the close binding is not gated: closing a layout the run has not written to must not sweep it (shared with C08.R2)
+	c08R2(p, r, "C19.R7")
 }
 
 // c19R6: a script that fails stops by itself. RunScript turns panics inside the script into an error;
